@@ -542,3 +542,65 @@ Theorem C20_counts_remove_interactions :
     /\ (is_linear m = true -> is_linear (fst (remove_interactions f m)) = true).
 Proof. exact counts_remove_interactions. Qed.
 Print Assumptions C20_counts_remove_interactions.
+
+(* ------------------------------------------------------------------------
+   Unconditional form (Proofs/AdjMoreBqm.v): every reachable BinaryQuadraticModel
+   object carries only BINARY/SPIN variables, so no all_binspin hypothesis is left.
+   ------------------------------------------------------------------------ *)
+From Dimod Require Import Proofs.AdjMoreBqm Gen.Gen_QmLimits.
+Local Open Scope nat_scope.
+
+(* slot_ok: Inv, and for a BQM object all variables and the object's own vartype are BINARY/SPIN;
+   xpre2: the documented argument preconditions + the driver's typing (QM-only calls on QM objects,
+   a BQM is constructed BINARY or SPIN) - nothing about the vartypes stored in an object *)
+Theorem C20_xstep_preserves_ok :
+  forall st o, all_ok st -> xpre2 st o -> all_ok (fst (xstep st o)).
+Proof. exact xstep_preserves_ok. Qed.
+Print Assumptions C20_xstep_preserves_ok.
+
+Theorem C20_xstep_reachable_unconditional :
+  forall ops, xrun_pre2 init_state ops ->
+    all_inv (fold_left (fun st o => fst (xstep st o)) ops init_state)
+    /\ all_ok (fold_left (fun st o => fst (xstep st o)) ops init_state).
+Proof. exact xstep_reachable_unconditional. Qed.
+Print Assumptions C20_xstep_reachable_unconditional.
+
+Theorem C20_bqm_ops_keep_binspin :
+  forall m o, vts_bs m -> (match o with CAddVar t | CResize t _ => bs t | _ => True end) -> vts_bs (cstep m o).
+Proof. exact vts_bs_cstep. Qed.
+Print Assumptions C20_bqm_ops_keep_binspin.
+
+(* the catalogue operations that had no statement of their own yet *)
+Theorem C20_inv_set_vartype :
+  forall v t m, Inv m -> (is_binspin t = true -> nb_get v (nb m v) = None) -> Inv (set_vt v t m).
+Proof. exact Inv_set_vt. Qed.
+Print Assumptions C20_inv_set_vartype.
+
+Theorem C20_inv_add_variables :
+  forall t k m, Inv m -> Inv (fold_left (fun acc (_ : nat) => add_variable t acc) (seq 0 k) m).
+Proof. exact Inv_add_variables_n. Qed.
+Print Assumptions C20_inv_add_variables.
+
+Theorem C20_inv_qm_of_bqm :
+  forall m t, Inv m -> vts_bs m -> Inv (mkQM (lin m) (adj m) (off m) (repeat t (nvars m))).
+Proof. exact Inv_qm_of_bqm. Qed.
+Print Assumptions C20_inv_qm_of_bqm.
+
+(* functional specifications: what a lookup returns after the call *)
+Theorem C20_get_remove_interactions :
+  forall f m x y, Inv m ->
+    nb_get y (nb (fst (remove_interactions f m)) x)
+    = match nb_get y (nb m x) with Some b => if f x y b then None else Some b | None => None end.
+Proof. exact get_remove_interactions. Qed.
+Print Assumptions C20_get_remove_interactions.
+
+Theorem C20_get_substitute_variables :
+  forall k c m x y, length (adj m) = nvars m ->
+    nb_get y (nb (substitute_variables k c m) x) = option_map (Qcmult (k * k)) (nb_get y (nb m x)).
+Proof. exact get_substitute_variables. Qed.
+Print Assumptions C20_get_substitute_variables.
+
+(* tie: the default bounds of the model are the table generated from vartypes.h *)
+Theorem C20_default_bounds_generated : forall t, default_bounds t = (gen_dflt_lb t, gen_dflt_ub t).
+Proof. exact default_bounds_generated. Qed.
+Print Assumptions C20_default_bounds_generated.
